@@ -31,6 +31,7 @@ def parseEv (f : Fields) : Option Ev :=
       | ["err"] => some (.origin c .err)
       | _ => none)
   | "insert" => some (.insert k (getNatD f "v" 0))
+  | "pinsert" => some (.pinsert k (getNatD f "v" 0))
   | "remove" => some (.remove k)
   | "dropcaller" => some (.dropCaller c)
   | "abort" => some .abort
@@ -101,7 +102,8 @@ def parseCache (s : String) : List (Nat × Nat) :=
   C11 `insert_answers_waiters`: a caller pending on `k` before `insert k v` is not answered `v`. -/
 def monitor (evs : List (Nat × Fields)) : String :=
   let rec go (pinned : List (Nat × Nat)) (running : List (Nat × Nat)) (keyOf : List (Nat × Nat))
-      (prevCallers : List (Nat × String)) (prevStarted : List Nat) (prevCache : List (Nat × Nat)) : List (Nat × Fields) → Nat → String
+      (prevCallers : List (Nat × String)) (prevStarted : List Nat) (prevCache : List (Nat × Nat))
+      (superseded : List Nat) : List (Nat × Fields) → Nat → String
     | [], _ => "HOLDS"
     | (ln, f) :: rest, n =>
       let cache := parseCache (getD f "cache" "-")
@@ -116,20 +118,27 @@ def monitor (evs : List (Nat × Fields)) : String :=
       let running0 := if ev = "origin" then running.filter (·.1 ≠ c) else running
       let running0 := if ev = "abort" || ev = "callabort" then [] else running0
       -- an explicit insert supersedes (closes) the fetch in flight for that key
-      let running0 := if ev = "insert" then running0.filter (·.2 ≠ k) else running0
+      let running0 := if ev = "insert" || ev = "pinsert" then running0.filter (·.2 ≠ k) else running0
+      -- a disk-only insert closes whatever lookup / fetch was in flight for the key: their late results must
+      -- change nothing
+      let superseded' := if ev = "pinsert" then superseded ++ (keyOf.filter (·.2 = k)).map (·.1) else superseded
+      let lateWrite : Bool :=
+        (ev = "origin" || ev = "disk") && superseded.contains c &&
+          (let kk := ((keyOf.find? (·.1 = c)).map (·.2)).getD 0
+           ((cache.find? (·.1 = kk)).map (·.2)) ≠ ((prevCache.find? (·.1 = kk)).map (·.2)))
       let keyOfFetch (x : Nat) : Nat := ((keyOf'.find? (·.1 = x)).map (·.2)).getD 0
       let clash := newStarted.find? fun x => running0.any fun (_, k') => k' = keyOfFetch x
       let running' := running0 ++ newStarted.map fun x => (x, keyOfFetch x)
       let pinned' :=
         if ev = "insert" then (k, getNatD f "v" 0) :: pinned.filter (·.1 ≠ k)
-        else if ev = "remove" then pinned.filter (·.1 ≠ k)
+        else if ev = "remove" || ev = "pinsert" then pinned.filter (·.1 ≠ k)
         else pinned
       let overwritten := pinned'.find? fun (pk, pv) =>
         match (cache.find? (·.1 = pk)).map (·.2) with
         | some v => v ≠ pv
         | none => false
       let unanswered : Option Nat :=
-        if ev = "insert" then
+        if ev = "insert" || ev = "pinsert" then
           (prevCallers.find? fun (cid, st) =>
             st = "p" && ((keyOf.find? (·.1 = cid)).map (·.2)) = some k &&
               ((callers.find? (·.1 = cid)).map (·.2)) ≠ some s!"val:{getNatD f "v" 0}").map (·.1)
@@ -146,7 +155,8 @@ def monitor (evs : List (Nat × Fields)) : String :=
       | _, _, _, true => s!"FAILS prop=C06 clause=every_caller_answered line={ln} step={n} detail=a_caller_is_still_pending_after_all_fetch_tasks_were_cancelled_or_all_futures_resolved"
       | none, none, none, false =>
         if failedCached then s!"FAILS prop=C06 clause=failed_fetch_caches_nothing line={ln} step={n} detail=-"
-        else go pinned' running' keyOf' callers started cache rest (n + 1)
-  go [] [] [] [] [] [] evs 0
+        else if lateWrite then s!"FAILS prop=C11 clause=late_result_after_disk_only_insert line={ln} step={n} detail=the_lookup_or_fetch_{c}_was_closed_by_a_disk-only_insert_of_its_key_but_its_late_result_changed_the_cache"
+        else go pinned' running' keyOf' callers started cache superseded' rest (n + 1)
+  go [] [] [] [] [] [] [] evs 0
 
 end Driver.Infl
